@@ -279,6 +279,10 @@ pub fn run(cx: &mut Cx) {
         let markers = od::marker_offsets(data);
         let newlines = od::newline_offsets(data);
         let mut r = Rng::stream(seed, "C13/schedules", v.index, 0);
+        // Step budget proportional to the input (a case hashes it under up to 20
+        // read schedules, and a line reader may copy every line while it
+        // grows); C13 is not about promptness, the budget only stops a runaway.
+        cx.set_budget(((len as u64) * 64).max(1 << 24), ((len as u64) * 2048).max(1 << 30));
 
         cx.ev.count(&format!("input/class/{}", v.class));
         cx.ev.max("max/input-len", len as u64);
